@@ -68,6 +68,7 @@ type Info struct {
 	BlockH   uint64
 	BlockHsh string // HashOf(block) or ""
 	Bad      bool   // unparsable
+	NonCanon bool   // the signed header (or, for NV, the embedded PREPREPARE header) is not the canonical encoding of its fields
 }
 
 func sigOK(h primitives.BlockHeight, hdr []byte, s *protocol.SenderSignature) SS {
@@ -127,17 +128,20 @@ func Parse(raw *interfaces.ConsensusRawMessage) (info Info) {
 		info.Kind = KPP
 		info.Hdr = refOf(m.SignedHeader())
 		info.Sender = sigOK(m.SignedHeader().BlockHeight(), m.SignedHeader().Raw(), m.Sender())
+		info.NonCanon = !kit.CanonRef(m.SignedHeader())
 	case c.IsMessagePrepareMessage():
 		m := c.PrepareMessage()
 		info.Kind = KP
 		info.Hdr = refOf(m.SignedHeader())
 		info.Sender = sigOK(m.SignedHeader().BlockHeight(), m.SignedHeader().Raw(), m.Sender())
+		info.NonCanon = !kit.CanonRef(m.SignedHeader())
 	case c.IsMessageCommitMessage():
 		m := c.CommitMessage()
 		info.Kind = KC
 		info.Hdr = refOf(m.SignedHeader())
 		info.Sender = sigOK(m.SignedHeader().BlockHeight(), m.SignedHeader().Raw(), m.Sender())
 		info.Share = append([]byte{}, m.Share()...)
+		info.NonCanon = !kit.CanonRef(m.SignedHeader())
 	case c.IsMessageViewChangeMessage():
 		m := c.ViewChangeMessage()
 		h := m.SignedHeader()
@@ -145,6 +149,7 @@ func Parse(raw *interfaces.ConsensusRawMessage) (info Info) {
 		info.Hdr = Ref{Type: int(h.MessageType()), Inst: uint64(h.InstanceId()), Height: uint64(h.BlockHeight()), View: uint64(h.View())}
 		info.Sender = sigOK(h.BlockHeight(), h.Raw(), m.Sender())
 		info.Proof = proofOf(h.PreparedProof())
+		info.NonCanon = !kit.CanonVote(h)
 	case c.IsMessageNewViewMessage():
 		m := c.NewViewMessage()
 		h := m.SignedHeader()
@@ -158,6 +163,7 @@ func Parse(raw *interfaces.ConsensusRawMessage) (info Info) {
 		pp := m.Message()
 		info.PP = refOf(pp.SignedHeader())
 		info.PPSender = sigOK(pp.SignedHeader().BlockHeight(), pp.SignedHeader().Raw(), pp.Sender())
+		info.NonCanon = !kit.CanonRef(pp.SignedHeader())
 	default:
 		info.Bad = true
 	}
@@ -192,6 +198,11 @@ func short(h string) string {
 
 // Desc is a human-readable canonical rendering used in traces and evidence samples.
 func (i Info) Desc() string {
+	if i.NonCanon {
+		j := i
+		j.NonCanon = false
+		return j.Desc() + " ~noncanonical-header"
+	}
 	if i.Bad {
 		return "BAD"
 	}
